@@ -58,6 +58,11 @@ func (f *MultipleValueCall) Call(s *slip.Scope, args slip.List, depth int) slip.
 			f.Args[i+1] = arg
 		}
 		v := s.Eval(arg, d2)
+		switch v.(type) {
+		case *slip.ReturnResult, *GoTo:
+			// A non-local exit in an argument leaves the call as well.
+			return v
+		}
 		if vs, ok := v.(slip.Values); ok {
 			xargs = append(xargs, vs...)
 		} else {
